@@ -14,7 +14,9 @@ symbol), with everything a static evaluator with constant folding can honestly r
     become Unknown); an undecided test that guards a `return`/`raise`/`break` is an `Unsupported` (-> ANALYSIS-ERROR), except that an arm which
     only raises is taken to be the error exit and is not followed;
   * in-place updates of arrays (`P /= 2`, `I += I.dot(E)`, `U[:n] += X`) update the *object*, so every alias sees them, as in numpy;
-    counters (`j += 1.0`) are rebound.  Such an update on an object reachable from a protected root (the model `self`) is recorded.
+    counters (`j += 1.0`) are rebound.  Such an update on an object reachable from a protected root (the model `self`) is recorded;
+  * an expression that raises for certain on the path evaluated (index beyond a literal tuple, key missing from a literal dict, a name
+    nothing defines) is a `Crash` value: it ends the path, and the rules report it as a violation rather than as an analysis error.
 
 Nothing of /repo is imported or executed; there is no numeric sampling: numbers are exact rationals read from the literals' decimal text.
 """
@@ -1590,7 +1592,17 @@ class Interp:
     def _s_Pass(self, st, fr):
         pass
 
-    _s_Import = _s_ImportFrom = _s_Global = _s_Nonlocal = _s_Assert = _s_Delete = _s_Pass
+    _s_Global = _s_Nonlocal = _s_Assert = _s_Delete = _s_Pass
+
+    def _s_Import(self, st, fr):
+        for a in st.names:
+            nm = a.asname or a.name.split(".")[0]
+            fr.vars[nm] = Ref(a.name if a.asname else a.name.split(".")[0])
+
+    def _s_ImportFrom(self, st, fr):
+        for a in st.names:
+            if a.name != "*":
+                fr.vars[a.asname or a.name] = Ref(f"{st.module or ''}.{a.name}".lstrip("."))
 
     def _s_Expr(self, st, fr):
         if isinstance(st.value, ast.Constant):
@@ -1785,8 +1797,10 @@ class Interp:
             if st.handlers:
                 raise Unsupported(f"`raise` inside `try` at line {st.lineno}")
             raise
-        finally:
-            pass
+        except _CrashSig as c:
+            if st.handlers:
+                raise Unsupported(f"an exception inside `try` at line {st.lineno} (a handler may catch it): {c.crash.why}")
+            raise
         self.run(st.orelse, fr)
         self.run(st.finalbody, fr)
 
